@@ -171,6 +171,21 @@ def run(tape, scenario):
             e = task.exception()
             viol("group-task-failed", f"{type(e).__name__}: {e}", exception=type(e).__name__)
         await asyncio.sleep(0.01)
+        if not violations and tape.chance("c27/second-session", 35):
+            # the same group and valve started again (fresh frame buffer); the history
+            # begins with a reset again
+            world.count("c27/group-started-a-second-time")
+            cycles[0] = 0
+            model["done"] = False
+            task = sg.start()
+            await asyncio.wait([task], timeout=60 + 4 * moving * ncycles)
+            if not task.done():
+                task.cancel()
+            elif not task.cancelled() and task.exception() is not None:
+                e = task.exception()
+                viol("group-task-failed", f"second session: {type(e).__name__}: {e}",
+                     exception=type(e).__name__)
+            await asyncio.sleep(0.01)
 
     with env:
         try:
